@@ -32,6 +32,10 @@ def _hook(event, args):
 
 
 def _rec(*a):
+    # paths are recorded absolute (a relative path is relative to the cwd of the moment)
+    a = tuple(os.path.abspath(v) if i and isinstance(v, str) and a[0] in
+              ("open_w", "open_r", "rename", "os.mkdir", "os.remove", "os.rmdir", "shutil.rmtree", "tempfile.mkdtemp",
+               "os.unlink") else v for i, v in enumerate(a))
     EVENTS.append(list(a))
     if LOG_FD is not None:
         try:
